@@ -205,18 +205,16 @@ func NewWorld(cfg WorldCfg) (*World, error) {
 			w.SetIdx[sc.Name+"."+FRoles] = st.AddSetIndex(rolesSym)
 		}
 		if sc.RefTo != "" {
-			refSyms[sc.Name] = st.AddFkSymbolWithKey(FRef, PersistKey(sc.Keyed, FRef), w.Stores[sc.RefTo])
+			if _, top := w.Stores[sc.RefTo]; top {
+				refSyms[sc.Name] = st.AddFkSymbolWithKey(FRef, PersistKey(sc.Keyed, FRef), w.Stores[sc.RefTo])
+			} // else: the target is a child store, the symbol is added once the child stores exist
 		} else {
 			st.AddSymbolWithKey(FRef, ast.NodeTypeString, PersistKey(sc.Keyed, FRef))
 		}
 	}
 	// pass 2: fk wiring (needs the target stores' back-reference symbols)
-	for _, sc := range cfg.Stores {
-		if sc.RefTo == "" {
-			continue
-		}
+	wire := func(sc StoreCfg, target boltz.ConfigurableStore) error {
 		st := w.Stores[sc.Name]
-		target := w.Stores[sc.RefTo]
 		switch sc.RefWiring {
 		case WireFkIndexNullable:
 			st.AddNullableFkIndex(refSyms[sc.Name], target.AddFkSetSymbol(sc.BackSym(), st))
@@ -230,7 +228,15 @@ func NewWorld(cfg WorldCfg) (*World, error) {
 			st.AddFkConstraint(refSyms[sc.Name], true, boltz.CascadeDelete)
 		case WireNone:
 		default:
-			return nil, fmt.Errorf("unknown wiring %q", sc.RefWiring)
+			return fmt.Errorf("unknown wiring %q", sc.RefWiring)
+		}
+		return nil
+	}
+	for _, sc := range cfg.Stores {
+		if target, top := w.Stores[sc.RefTo]; top {
+			if err := wire(sc, target); err != nil {
+				return nil, err
+			}
 		}
 	}
 	for _, sc := range cfg.Stores {
@@ -280,6 +286,15 @@ func NewWorld(cfg WorldCfg) (*World, error) {
 		})
 		w.Kids[cc.Name] = ks
 		w.KidCfgs[cc.Name] = cc
+	}
+	// foreign keys whose target is a child store
+	for _, sc := range cfg.Stores {
+		if target, isKid := w.Kids[sc.RefTo]; isKid {
+			refSyms[sc.Name] = w.Stores[sc.Name].AddFkSymbolWithKey(FRef, PersistKey(sc.Keyed, FRef), target)
+			if err := wire(sc, target); err != nil {
+				return nil, err
+			}
+		}
 	}
 	// links
 	cfgStore := func(name string) boltz.ConfigurableStore {
@@ -583,7 +598,7 @@ func (m *Model) checkWrite(store, id string, old, next *MEnt, system bool) []str
 				if sc.RefWiring == WireFkIndex || sc.RefWiring == WireFkIndexCascade {
 					causes = append(causes, ErrEmpty)
 				}
-			} else if _, ok := m.Ents[sc.RefTo][newR]; !ok && !(sc.RefTo == store && newR == id) {
+			} else if !m.LinkEndExists(sc.RefTo, newR) && !(sc.RefTo == store && newR == id) {
 				causes = append(causes, ErrNotFound)
 			}
 		}
@@ -707,11 +722,12 @@ func (m *Model) Update(store, id string, s EntSpec, fields []string, system bool
 	return nil
 }
 
-// referrers returns store -> ids referencing (targetStore, id) through a wired ref.
+// Referrers returns store -> ids referencing the entity id of targetStore (or of one of the child stores over the
+// same parent: a reference to a child store names the same entity) through a wired ref.
 func (m *Model) Referrers(targetStore, id string) map[string][]string {
 	out := map[string][]string{}
 	for _, sc := range m.Cfg.Stores {
-		if sc.RefTo != targetStore || sc.RefWiring == WireNone {
+		if sc.RefTo == "" || m.BaseStore(sc.RefTo) != m.BaseStore(targetStore) || sc.RefWiring == WireNone {
 			continue
 		}
 		for rid, e := range m.Ents[sc.Name] {
